@@ -146,7 +146,7 @@ func RunCheck(spec *PropSpec, opts RunOpts) int {
 		return 3
 	}
 	items := spec.Items(opts.Tier, opts.Seed)
-	if opts.Solver == SolverZ3 && spec.Solver != SolverZ3 {
+	if os.Getenv("GOSMT_SOLVER") == "" && spec.Solver != SolverZ3 {
 		opts.Solver = spec.Solver
 	}
 	if spec.MaxVisits > 0 {
